@@ -18,6 +18,37 @@ class Loop:
     pass
 
 
+def _projection_field(body, clo_op):
+    """name of the crate-record field a one-parameter closure projects out of its parameter (`|r| r.list.as_slice()`,
+    `|r| &r.list`), when that is all it does; else None"""
+    prog = getattr(body, "prog", None)
+    if prog is None:
+        return None
+    cb = None
+    for o in origins(body, clo_op):
+        if o[0] == "agg" and len(o) == 3:
+            ag = body.blocks[o[1]]["stmts"][o[2]]["rv"].get("agg")
+            if ag and ag.get("kind") == "closure" and not ag.get("ops"):
+                cb = prog.body(ag["closure"])
+    if cb is None or cb.arg_count != 2:
+        return None
+    for _, _, fr in cb.iter_calls():
+        if fr is None or lib.tail(mir.fn_name(fr), 1) not in ("as_slice", "deref", "as_ref", "iter", "borrow"):
+            return None
+    names = set()
+    for b, i, st in cb.iter_stmts():
+        if st["k"] != "assign":
+            continue
+        rv = st["rv"]
+        pl = rv.get("ref") or (op_place(rv["use"]) if "use" in rv else None)
+        if pl is None or pl["l"] != 2:
+            continue
+        for e in pl["p"]:
+            if isinstance(e, dict) and "f" in e and e.get("adt") and not e["adt"].startswith(("core::", "alloc::", "std::", "bevy_", "hashbrown::", "smallvec::")):
+                names.add(e.get("name"))
+    return next(iter(names)) if len(names) == 1 else None
+
+
 def _er_role(body, fr):
     """role of a (possibly renamed) method of EntityReactors by signature: `(&self, EntityReactionType) -> usize` is the
     per-kind count, `(&self, EntityReactionType) -> impl Iterator` the per-kind iteration"""
@@ -223,6 +254,19 @@ def _local_source(body, l, depth, env):
             elif t1 in SRC_PASS:
                 pp = op_place(t["args"][0])
                 res.add(_place_source(body, pp, depth + 1, env) if pp else None)
+            elif t2 == "Option::map" and len(t["args"]) == 2 and _projection_field(body, t["args"][1]) is not None:
+                # `table.get(&key).map(|entry| entry.list.as_slice())`: the sub-list `list` of the looked-up entry
+                pp = op_place(t["args"][0])
+                src_ = _place_source(body, pp, depth + 1, env) if pp else None
+                if src_ and src_[0] == "table" and src_[2] is None:
+                    res.add(("table", src_[1], _projection_field(body, t["args"][1]), src_[3]))
+                else:
+                    res.add(None)
+            elif t1 == "flatten" and "iterator::Iterator" in name:
+                # `table.get(&key).into_iter().flatten()`: the 0-or-1 lists of a lookup, flattened, are that entry's list
+                pp = op_place(t["args"][0])
+                src_ = _place_source(body, pp, depth + 1, env) if pp else None
+                res.add(src_ if src_ and src_[0] == "table" else None)
             elif t1 in ("map", "copied", "cloned", "inspect") and "iterator::Iterator" in name and (t1 != "map" or _maps_handle_to_system(body, t)):
                 # element-wise adaptors keep the collection, its order and its length; `map` only when it projects each
                 # registration to its own system id (`.map(ReactorHandle::sys_command)` / `.map(|h| h.sys_command())`)
